@@ -585,6 +585,8 @@ def run(repo, rep):
     c03.inverse_rules(repo, rep)
     rep.trust('opaque call atoms carry every formal parameter of the callee (defaults explicit); constructors of the coordinate classes are evaluated')
     rep.assume('latitude/longitude held as plain numbers are floats (type(x) == float folds to true for symbolic numbers in this module)')
+    common.receiver_rule(repo, rep, 'geodepy.coord', ('geo', 'tm', 'cart', 'notation', '__round__', '__repr__', '__eq__'),
+                         'conversions between the coordinate classes are functions of the object, not commands on it')
     # threading
     tr = ThreadRule(repo, rep)
     m = repo.module('geodepy.coord')
